@@ -693,8 +693,9 @@ func formsGen(r *rand.Rand, emit func(core.Case)) {
 		}
 		t := core.Str(m["t"])
 		if r.IntN(5) == 0 && !bytes.Contains(b, []byte("@type")) && !bigIntText.Match(b) {
-			t = []string{"BoolValue", "Int32Value", "Int64Value", "UInt32Value", "UInt64Value", "DoubleValue", "StringValue", "BytesValue", "Value",
-				"Struct", "ListValue", "Empty", "FieldMask", "Duration", "Timestamp", "Any"}[r.IntN(16)]
+			// (not BytesValue / FloatValue: base64 input leniency and float32 range are outside this specification)
+			t = []string{"BoolValue", "Int32Value", "Int64Value", "UInt32Value", "UInt64Value", "DoubleValue", "StringValue", "Value",
+				"Struct", "ListValue", "Empty", "FieldMask", "Duration", "Timestamp", "Any"}[r.IntN(15)]
 		}
 		emit(core.Case{"op": "fromjson", "t": t, "j": parseJSONText(b)})
 	}
